@@ -7,7 +7,7 @@ import vlib
 from checks import _spectral as sp
 
 PROPERTY = "C05"
-LEAN_MODULES = ["TapkeeVerif.Props.C05"]
+LEAN_MODULES = ["TapkeeVerif.Props.C05", "TapkeeVerif.Props.C05Compose"]
 LEAN_EXES = ["model_c05"]
 REQUIRED_THEOREMS = [
     "TapkeeVerif.C05.center_eq_JAJ",
@@ -27,6 +27,11 @@ REQUIRED_THEOREMS = [
     "TapkeeVerif.C05.kpca_optimal",
     "TapkeeVerif.C05.certificate_sound",
     "TapkeeVerif.C05.certificate_sound_robust",
+    "TapkeeVerif.MdsCompose.mds_end_to_end",
+    "TapkeeVerif.MdsCompose.kpca_end_to_end",
+    "TapkeeVerif.MdsCompose.ex_mds_isTopEig",
+    "TapkeeVerif.MdsCompose.ex_kpca_isTopEig",
+    "TapkeeVerif.MdsCompose.ex_sqrt",
 ]
 
 
